@@ -5,6 +5,7 @@ import (
 	"context"
 	"fmt"
 	"io"
+	"net/url"
 	"os"
 	"path/filepath"
 	"sort"
@@ -13,6 +14,7 @@ import (
 	"time"
 
 	"github.com/superfly/litefs"
+	"github.com/superfly/litefs/lfsc"
 	"github.com/superfly/ltx"
 )
 
@@ -34,6 +36,7 @@ func init() {
 type backupImpl struct {
 	eng       engineImpl
 	client    *litefs.FileBackupClient
+	cloud     *fakeLFSC // non-nil: the store uses the LiteFS Cloud client against this local server
 	dir       string
 	loop      bool      // the store was opened with the continuous sync loop
 	loopStart time.Time // when
@@ -41,6 +44,9 @@ type backupImpl struct {
 
 func (m *backupImpl) Close() {
 	m.eng.Close()
+	if m.cloud != nil {
+		m.cloud.Close()
+	}
 	if m.dir != "" {
 		_ = os.RemoveAll(m.dir)
 	}
@@ -71,7 +77,7 @@ func (m *backupImpl) Do(line string) string {
 	case "ref":
 		return "ok"
 	case "open":
-		if m.eng.store != nil || len(f) != 2 {
+		if m.eng.store != nil || !(len(f) == 2 || (len(f) == 3 && f[2] == "lfsc")) {
 			return "bad-op"
 		}
 		d, err := os.MkdirTemp(os.Getenv("VERIF_SCRATCH"), "verif-backup-")
@@ -83,8 +89,25 @@ func (m *backupImpl) Do(line string) string {
 		if err := m.client.Open(); err != nil {
 			return "err"
 		}
+		if len(f) == 3 {
+			// the LiteFS Cloud client (lfsc/backup_client.go) against a local server that keeps its
+			// state with the file client on the same directory
+			fk, err := newFakeLFSC(m.client)
+			if err != nil {
+				return "err"
+			}
+			m.cloud = fk
+		}
 		m.eng.configure = func(st *litefs.Store) error {
 			st.BackupClient = m.client
+			if m.cloud != nil {
+				bc := lfsc.NewBackupClient(st, url.URL{Scheme: "http", Host: m.cloud.Host()})
+				bc.Cluster = "verif"
+				if err := bc.Open(); err != nil {
+					return err
+				}
+				st.BackupClient = bc
+			}
 			st.BackupDelay = 0 // no background loop: the suite calls SyncBackup
 			if m.loop {
 				st.BackupDelay = 2 * time.Millisecond // continuous loop (starts with the node's first backup tick, 1 s after it became primary)
@@ -289,7 +312,13 @@ func genBackup(c *Ctx) error {
 		p := newPager(r, ps, do)
 		p.journalMode = pick(r, []string{"DELETE", "TRUNCATE", "PERSIST"})
 		p.walBig = r.Bool()
-		do("open primary")
+		if h%2 == 1 {
+			// the LiteFS Cloud client (lfsc/backup_client.go) against a local server on the same service state
+			do("open primary lfsc")
+			sig.WriteString(",lfsc")
+		} else {
+			do("open primary")
+		}
 		do("createdb")
 		uploads, restores := 0, 0
 		// other: a writer elsewhere whose history the service may hold instead of ours
@@ -505,7 +534,11 @@ func directedBackupLoop(c *Ctx) {
 		do := func(op string) string { c.Count("op." + strings.SplitN(op, " ", 2)[0]); return cs.Do(op) }
 		p := newPager(r, 512, do)
 		p.journalMode = "DELETE"
-		do("open primary")
+		if backlog == 300 {
+			do("open primary lfsc") // the LiteFS Cloud client on the batch-limit case
+		} else {
+			do("open primary")
+		}
 		do("createdb")
 		observe := func() {
 			cs.Do(p.refLine())
